@@ -182,11 +182,11 @@ PROPS = {
     "C01": dict(
         level="other",
         technique="Kani contract harnesses (assert form) per selector and time-span unit, full symbolic node x date domains",
-        level_text="Partial. The clause 'a rule applies on a day iff the day satisfies its year, month, week-number and weekday/holiday selectors (steps, nth positions, offsets, wrapping ranges, leap days, Easter)' is decided per selector type: for every AST node satisfying the grammar's invariants and every date 1900..9999 the real `filter` equals an arithmetic spec predicate (year, month, ISO week, weekday with nth-of-month, holiday calendars, list = disjunction, DaySelector = conjunction), with the leaf kernels (count_days_in_month, easter against an independent computus, valid_ymd clamps, wrapping ranges, Month next/prev) under their own contracts; 'time spans passing midnight continue on the following day' and the default sun-event times are contracts on TimeSpan::as_naive and time_selector_intervals_at(_next_day). Loop-free full-domain harnesses are complete proofs of their obligation; list/selector lengths and day offsets are bounded and labelled so. Dated ranges (`Dec 24-Jan 6`, `2021 Mar 28-Apr 16`, `2020 Jan 1-2025 Dec 31`) are decided modularly: the pairing code against its contract on arrays of symbolic dates (bounded lengths), and the real `MonthdayRange::Date` arms of `filter` against 'every day from start to end, recurring yearly when no year is given, through new year when the end precedes the start' with the pairing entry points and the valid_ymd leaves replaced by their contracts (year-ful ranges for all nodes x all dates; year-less ranges for every day of representative years in the quick tier, all dates in the thorough tier). The rule-combination loop of schedule_at is decided in the thorough tier only (2-3 rules, contract models of the callees); The leap-day selector `Feb 29` is decided for every day of representative years (2024; 2097 and 9997 thorough - the 8-year gap around 2100 closed by an unwinding assertion), Easter ranges with day offsets in the thorough tier; weekday offsets on dated ranges and the parser link are not decided.",
-        level_note="Assumes the AST invariants read off grammar.pest/build_* (the parser is not verified, C05). Holiday calendars are abstracted by contract models (membership / least member after) justified by the C15 contracts; std sort replaced by an insertion-sort model in the time-selector harness. Rule combination in schedule_at: thorough tier only, 2-3 rules, callees replaced by contract models. Not decided: offset dated ranges, sun events with coordinates (C11).",
+        level_text="Partial. The clause 'a rule applies on a day iff the day satisfies its year, month, week-number and weekday/holiday selectors (steps, nth positions, offsets, wrapping ranges, leap days, Easter)' is decided per selector type: for every AST node satisfying the grammar's invariants and every date 1900..9999 the real `filter` equals an arithmetic spec predicate (year, month, ISO week, weekday with nth-of-month, holiday calendars, list = disjunction, DaySelector = conjunction), with the leaf kernels (count_days_in_month, easter against an independent computus, valid_ymd clamps, wrapping ranges, Month next/prev) under their own contracts; 'time spans passing midnight continue on the following day' and the default sun-event times are contracts on TimeSpan::as_naive and time_selector_intervals_at(_next_day). Loop-free full-domain harnesses are complete proofs of their obligation; list/selector lengths and day offsets are bounded and labelled so. Dated ranges (`Dec 24-Jan 6`, `2021 Mar 28-Apr 16`, `2020 Jan 1-2025 Dec 31`) are decided modularly: the pairing code against its contract on arrays of symbolic dates (bounded lengths), and the real `MonthdayRange::Date` arms of `filter` against 'every day from start to end, recurring yearly when no year is given, through new year when the end precedes the start' with the pairing entry points and the valid_ymd leaves replaced by their contracts (year-ful ranges for all nodes x all dates; year-less ranges for every day of representative years in the quick tier, all dates in the thorough tier). The rule-combination loop of schedule_at is not decided by the registered commands (the harnesses are kept with tier=off); The leap-day selector `Feb 29` is decided for every day of representative years (2024; 2097 and 9997 thorough - the 8-year gap around 2100 closed by an unwinding assertion), Easter ranges with day offsets in the thorough tier; weekday offsets on dated ranges and the parser link are not decided.",
+        level_note="Assumes the AST invariants read off grammar.pest/build_* (the parser is not verified, C05). Holiday calendars are abstracted by contract models (membership / least member after) justified by the C15 contracts; std sort replaced by an insertion-sort model in the time-selector harness. Not decided: rule combination in schedule_at (harnesses exist, tier=off: heap-model artefacts of CBMC), offset dated ranges, sun events with coordinates (C11).",
         explanation="PARTIAL: selector-level and time-span-level clauses only.",
         undecided_clauses=[
-            "'a later normal rule replaces earlier rules on the days it applies, additional rules and closed rules overlay, fallback rules apply only on days nothing else covered' (the loop of OpeningHours::schedule_at): decided only in the thorough tier and only for expressions of 2-3 rules with one-year day selectors and whole-day/empty contributions (rule_combination_2/3: real loop, callees rule_sequence_schedule_at and Schedule::addition replaced by contract models); not decided in the quick tier, for more rules, or with part-day spans and spill-over",
+            "'a later normal rule replaces earlier rules on the days it applies, additional rules and closed rules overlay, fallback rules apply only on days nothing else covered' (the loop of OpeningHours::schedule_at): NOT decided by the registered commands. The harnesses rule_combination_2/3 (real loop over 2-3 rules, callees replaced by contract models) verified in round two, but on the current tree CBMC reports heap-model artefacts in them that do not reproduce natively; they are kept with tier=off (DESIGN.md 0e)",
             "dated ranges with weekday offsets or day offsets on fixed bounds (`Dec 24 -2 days-Jan 6`, `Jan 1 +Su`): not decided; year-less ranges and `Feb 29` are decided for every day of representative years only in the quick tier; `Apr 31`-like ranges of nonexistent days are a recorded known finding",
             "'For every expression the parser accepts': the parser->AST link is assumed (C05 not applicable)",
         ],
